@@ -24,9 +24,9 @@ from harness.core import Ctx, VERIF
 
 RULE = (
     "histories are generated from one SplitMix64 state: t in {3,4,5}, in-order optimisation on/off, dict or set API, "
-    "key universes of 6..260 keys, phases (build ascending/descending/alternating/random, churn, drain in several "
+    "int / str / dns.name.Name keys through an order-preserving encoding, key universes of 6..260 keys that always contain the falsy key (0, '', the empty name), phases (build ascending/descending/alternating/random, churn, drain in several "
     "orders), freeze/clone points with mutations of the original and of every clone along shared paths, 0..3 live "
-    "registered cursors with seek/next/prev/park kept across mutations, plus a malformed stream (bad handles, clone "
+    "registered cursors with seek/next/prev/park kept across mutations, a dedicated stream of cursor-vs-mutation histories simulated while generating (delete the element just returned, insert/delete next to the anchor, first mutation of a fresh clone under an open cursor), plus a malformed stream (bad handles, clone "
     "of a mutable tree, delete_exact of foreign elements, use of closed cursors, mutation of frozen trees); a case is "
     "non-trivial if it performs at least one mutation and its key (parameters + op list) is new"
 )
@@ -1029,7 +1029,7 @@ def gen_history(rng, size_class=None):
     budget = {"tiny": rng.range(10, 60), "small": rng.range(30, 120), "medium": rng.range(80, 200), "large": rng.range(150, 330)}[sc]
     use_cursors = rng.chance(3, 5)
     use_clones = rng.chance(3, 5)
-    allkeys = list(range(1, universe + 1))
+    allkeys = list(range(0, universe + 1))  # 0 is the falsy key of every key type
     # phase 1: build
     fill = rng.choice([3, 5, 8, 10]) * universe // 10
     build = key_order(rng, rng.shuffle(allkeys)[:max(1, fill)], rng.choice(ORDERS))
@@ -1052,7 +1052,7 @@ def gen_history(rng, size_class=None):
                 g.queries(x, universe, 2)
             if use_cursors:
                 g.cursor_ops(6, universe)
-            g.ins(rng.below(g.ntrees), rng.range(1, universe))  # rejected: every tree is frozen
+            g.ins(rng.below(g.ntrees), rng.range(0, universe))  # rejected: every tree is frozen
             continue
         if use_clones and (not muts or rng.chance(1, 3)):
             g.freeze_and_clone()
@@ -1064,7 +1064,7 @@ def gen_history(rng, size_class=None):
         n = rng.range(3, 25)
         if phase < 4:  # churn
             for _ in range(n):
-                k = rng.range(1, universe)
+                k = 0 if rng.chance(1, 12) else rng.range(0, universe)
                 m = rng.below(10)
                 if m < 4:
                     g.ins(h, k)
@@ -1128,7 +1128,7 @@ def gen_history(rng, size_class=None):
             for x in range(g.ntrees):
                 if rng.chance(1, 2):
                     g.queries(x, universe)
-    return {"kind": "hist", "t": t, "io": io, "set": g.is_set, "ops": g.ops}
+    return {"kind": "hist", "t": t, "io": io, "set": g.is_set, "ktype": rng.choice(KTYPES), "ops": g.ops}
 
 
 def gen_absent_sweeps(rng):
@@ -1190,6 +1190,92 @@ def gen_absent_sweeps(rng):
     return {"kind": "hist", "t": t, "io": 0, "set": g.is_set, "ops": g.ops}
 
 
+KTYPES = ["int", "int", "int", "str", "name"]
+
+
+def gen_cursor_mutation(rng):
+    """Cursors kept open across mutations of *their own* tree, simulated exactly while generating so that the
+    mutations aim at the cursor: delete the element just returned (`for k in b: del b[k]`), insert or delete right
+    before / after the anchor, mutate a fresh clone under an open cursor (the first mutation copies the cursor's
+    leaf).  Universes are small and always contain key 0 (the falsy key: 0, '', the empty name), and the run
+    starts at the low end, so that cursors are regularly parked on it."""
+    t = rng.choice([3, 3, 4, 5])
+    io = rng.below(2)
+    is_set = rng.chance(1, 4)
+    n = rng.choice([3, 5, 6, 8, 12, 20, 30, 45])
+    step = rng.choice([1, 1, 2, 3])
+    ops = []
+    vid = [0]
+    refs = [set()]
+    frozen = [False]
+
+    def ins(h, k):
+        vid[0] += 1
+        ops.append(f"I,{h},{k},{0 if is_set else vid[0]}")
+        if not frozen[h]:
+            refs[h].add(k)
+
+    def dele(h, k):
+        m = rng.below(4)
+        ops.append(f"R,{h},{k}" if m == 0 else (f"O,{h},{k}" if (m == 1 and not is_set) else f"D,{h},{k}"))
+        if not frozen[h]:
+            refs[h].discard(k)
+
+    keys0 = [i * step for i in range(n)]
+    for k in key_order(rng, keys0, rng.choice(["asc", "asc", "desc", "rand"])):
+        ins(0, k)
+    h = 0
+    if rng.chance(1, 3):  # work on a clone: its first mutation copies the nodes under the cursor
+        ops.append("F,0")
+        ops.append(f"C,0,{rng.below(2)}")
+        frozen[0] = True
+        frozen.append(False)
+        refs.append(set(refs[0]))
+        h = 1
+    ncur = rng.choice([1, 1, 2])
+    curs = []
+    for c in range(ncur):
+        ops.append(f"c,{h}")
+        rc = RefCursor()
+        m = rng.below(4)
+        if m == 0:
+            ops.append(f"s,{c},0,{rng.below(2)}")
+            rc.seek(0, ops[-1].endswith(",1"))
+        elif m == 1:
+            ops.append(f"l,{c}")
+            rc.state = ("R",)
+        curs.append(rc)
+    hi = max(keys0) + 2
+    for _ in range(rng.range(8, 60)):
+        c = rng.below(ncur)
+        rc = curs[c]
+        keys = sorted(refs[h])
+        fwd = rng.chance(3, 4)
+        got = rc.next(keys) if fwd else rc.prev(keys)
+        ops.append(f"n,{c}" if fwd else f"p,{c}")
+        m = rng.below(12)
+        if m < 5 and got is not None:
+            dele(h, got)  # delete what was just returned (iteration that empties the map)
+        elif m < 7:
+            base = got if got is not None else (0 if rc.state[0] == "L" else hi)
+            ins(h, max(0, base + rng.choice([-2, -1, -1, 1, 1, 2])))
+        elif m < 8 and keys:
+            dele(h, rng.choice(keys))
+        elif m < 9:
+            ins(h, rng.below(hi + 1))
+        elif m < 10:
+            ins(h, 0) if 0 not in refs[h] else dele(h, 0)
+        elif m < 11:
+            k = rng.choice([0, 0, rng.below(hi + 1)])
+            b = rng.below(2)
+            ops.append(f"s,{c},{k},{b}")
+            rc.seek(k, bool(b))
+        # else: no mutation between two cursor steps
+        if rng.chance(1, 10):
+            ops.append(rng.choice([f"T,{h}", f"K,{h}", f"L,{h}", f"P,{c}"]))
+    return {"kind": "hist", "t": t, "io": io, "set": is_set, "ktype": rng.choice(KTYPES), "ops": ops}
+
+
 def gen_malformed(rng):
     """histories with invalid handles, clones of mutable trees, foreign exact deletes, closed cursors, junk tokens"""
     c = gen_history(rng, "tiny" if rng.chance(1, 2) else "small")
@@ -1232,11 +1318,18 @@ def exhaustive_small(ctx):
 
 
 def generate(ctx: Ctx, scale: float, rng):
-    n_hist = max(1, int(1300 * scale))
+    n_hist = max(1, int(1100 * scale))
     for i in range(n_hist):
         case = gen_history(rng)
         r = eval_case(ctx, case)
         ctx.case(("hist", case["t"], case["io"], case["set"], tuple(case["ops"])), nontrivial=bool(r and r.mutations), sample=_sample(case))
+    for i in range(max(1, int(300 * scale))):
+        case = gen_cursor_mutation(rng)
+        r = eval_case(ctx, case)
+        ctx.count("cursor-mutation")
+        ctx.count("ktype." + case["ktype"])
+        ctx.case(("curmut", case["t"], case["io"], case["set"], case["ktype"], tuple(case["ops"])),
+                 nontrivial=bool(r and r.mutations), sample=_sample(case))
     for i in range(max(1, int(40 * scale))):
         case = gen_absent_sweeps(rng)
         r = eval_case(ctx, case)
